@@ -128,3 +128,8 @@ impl KeyComparator {
         Ok(KeyComparison { tuple_mode, bare_mode })
     }
 }
+
+/// `Tuple::keys_offset`: where the key columns start in a tuple with `num_values` value columns.
+pub fn keys_offset(num_values: usize) -> usize {
+    Tuple::keys_offset(num_values)
+}
